@@ -7,11 +7,11 @@ func numShardID() common.ID { return common.ID{} }
 // metaShadow is the property oracle's own view of the history (filled in below).
 type metaShadow struct{ epoch int }
 
-func newMetaShadow() *metaShadow                          { return &metaShadow{} }
-func (s *metaShadow) put(cn int, o opLine, err error)     {}
-func (s *metaShadow) mark(cn int, ids []int, red bool)    {}
-func (s *metaShadow) inhumeCnr(cn int)                    {}
-func (s *metaShadow) delCnr(cn int)                       {}
-func (s *metaShadow) delete(cn int, ids []int)            {}
-func (s *metaShadow) revive(cn, o int, ok bool)           {}
+func newMetaShadow() *metaShadow                           { return &metaShadow{} }
+func (s *metaShadow) put(cn int, o opLine, err error)      {}
+func (s *metaShadow) mark(cn int, ids []int, red bool)     {}
+func (s *metaShadow) inhumeCnr(cn int)                     {}
+func (s *metaShadow) delCnr(cn int)                        {}
+func (s *metaShadow) delete(cn int, ids []int)             {}
+func (s *metaShadow) revive(cn, o int, ok bool)            {}
 func (s *metaShadow) check(c *runCtx, m *metaDB, d string) {}
